@@ -150,7 +150,7 @@ func judgeFwd(rep *lib.Report, ln fwdLine, haveModel bool) {
 				probe2 = sfProbe{&o2}
 			}
 			if ei == 0 {
-				fmt.Sprintf(o1.MF, probe2)
+				_ = fmt.Sprintf(o1.MF, probe2)
 			} else {
 				redact.Sprintf(o1.MF, probe2)
 			}
